@@ -1,6 +1,6 @@
 (* C16/Props.v — property theorems only *)
 From Coq Require Import ZArith List Bool Permutation.
-From FV Require Import Base.Ser Base.Res C16.Model C16.Proofs.
+From FV Require Import Base.Ser Base.Res C16.Model C16.Proofs C16.ModelOrder C16.ProofsOrder Data.Data_tableorder.
 Import ListNotations.
 Open Scope Z_scope.
 
@@ -37,3 +37,27 @@ Theorem save_idempotent_refuted :
   <> snd (save (list Z) w_reader w_dec w_enc w_sideloads w_ld0 [2; 1]).
 Proof. exact Proofs.save_idempotent_refuted. Qed.
 Print Assumptions save_idempotent_refuted.
+
+(* ttFont.sortedTagList — the order TTFont.keys() lists, save() walks and reorderTables writes the tables in — depends only on
+   the SET of tables, whatever order they were loaded or added in *)
+Theorem table_order_depends_on_set_only : forall order l l', Permutation l l' ->
+  sortedTagList_with order l = sortedTagList_with order l'.
+Proof. exact ProofsOrder.table_order_depends_on_set_only. Qed.
+Print Assumptions table_order_depends_on_set_only.
+
+(* ... and lists every table exactly once *)
+Theorem table_order_lists_every_table_once : forall order l, NoDup l -> Permutation (sortedTagList_with order l) l.
+Proof. exact ProofsOrder.table_order_lists_every_table_once. Qed.
+Print Assumptions table_order_lists_every_table_once.
+
+(* the whole function: the recommended tags that are present, in the recommended order; then everything else, sorted *)
+Theorem table_order_follows_recommendation : forall o l, NoDup o ->
+  sortedTagList_with (Some o) l
+  = filter (fun t => memz t l) o ++ filter (fun u => negb (memz u o)) (uniq_sort l).
+Proof. exact ProofsOrder.table_order_follows_recommendation. Qed.
+Print Assumptions table_order_follows_recommendation.
+
+(* with the orders the source declares (regenerated into Data_tableorder on every run): DSIG, when present, is last *)
+Theorem dsig_is_written_last : forall l, In tag_DSIG l -> exists front, sortedTagList l = front ++ [tag_DSIG].
+Proof. exact ProofsOrder.dsig_is_written_last. Qed.
+Print Assumptions dsig_is_written_last.
